@@ -28,6 +28,19 @@ def stJ (s : St) : Json :=
   Json.mkObj [("err", optStrJ s.err), ("started", Json.bool s.started), ("onTx", Json.bool s.onTx),
     ("open", natJ s.openTx), ("log", strListJ s.log)]
 
+def w? (j : Json) : Option W := do
+  let a ← jArr? j
+  let row ← jNat? (arg a 0)
+  let f ← optStr? (arg a 1)
+  let ap ← jBool? (arg a 2)
+  some { row := row, fail := f, applied := ap }
+
+def batches? (j : Json) : Option (List (List W)) := do
+  (← jArr? j).toList.mapM (fun b => do (← jArr? b).toList.mapM w?)
+
+def viewJ (v : View) : Json :=
+  Json.mkObj [("err", Json.bool v.err.isSome), ("rows", Json.arr (v.rows.map natJ).toArray), ("log", strListJ v.log)]
+
 end HC05
 open HC05 in
 /-- ["c05.begin", skip, db.Error|null, beginRes]                      -> state after BeginTransaction
@@ -36,7 +49,9 @@ open HC05 in
     ["c05.scantail", mode, db.Error|null, rowsErr|null, same]                      -> db.Error after the tail of Scan
     ["c05.qstmt", mode, callErr|null, loopErr|null, rowsErr|null, same, closeErr|null] -> db.Error after a query-path statement
     ["c05.xstmt", isCreate, supportReturning, callErr|null, affected, rowsAffErr|null, lastIdOk, lastIdErr|null]
-                                                                                  -> db.Error after an exec-path statement -/
+                                                                                  -> db.Error after an exec-path statement
+    ["c05.cib", inTx, skip, disableNested, createBatchSize, len, [rows before…], [[ [row, fail|null, applied]…]…]]
+        -> {err, rows, log} of Stg.createFin (createBatchSize = 0: one plain pipeline over all statements) -/
 def handleC05 (op : String) (args : Array Json) : Option Json := do
   match op with
   | "c05.begin" =>
@@ -81,6 +96,16 @@ def handleC05 (op : String) (args : Array Json) : Option Json := do
     let ok ← jBool? (arg args 6)
     let le ← optStr? (arg args 7)
     some (optStrJ (execStmt isCreate sr none { callErr := ce, affected := aff, rowsAffErr := ra, lastIdOk := ok, lastIdErr := le }))
+  | "c05.cib" =>
+    let inTx ← jBool? (arg args 1)
+    let skip ← jBool? (arg args 2)
+    let dis ← jBool? (arg args 3)
+    let cbs ← jNat? (arg args 4)
+    let len ← jNat? (arg args 5)
+    let before ← (← jArr? (arg args 6)).toList.mapM jNat?
+    let bs ← batches? (arg args 7)
+    some (viewJ (createFin { inTx := inTx, skipDefault := skip, disableNested := dis } cbs len
+      { rows := before, err := none, log := [] } bs))
   | _ => none
 
 end Gorm.Drv
